@@ -144,7 +144,7 @@ fn mat_perspective_y_exact() {
     assert!(q.y() == (fr * ar) * p.y());
 }
 
-// @ob props=C08 tier=quick kind=P cfg=core-std timeout=1800
+// @ob props=C08 tier=thorough kind=P cfg=core-std timeout=5400
 // @fn orthographic ; Mat4x4<RealToProj>::apply
 // @clause orthographic projection, one axis: the box sides lo < hi map to -1 and +1 within 1e-3 whenever the box is not ill-conditioned (|lo|,|hi| <= 100 * (hi - lo), extents in [1e-3, 2000])
 #[cfg(not(verif_skip_mat_orthographic_axis_to_unit))]
